@@ -1,6 +1,7 @@
 """C20 - migration copies every key, value and reference count (structural part)."""
 import re
 import core, lib
+from props import shared
 from core import call_matches, call_names, op_place, op_local, backward_slice
 
 LEVEL = 'other'
@@ -18,7 +19,7 @@ PRED = ['index::TableId::is_file_name', 'table::TableId::is_file_name', 'ref_cou
 
 def run(ctx):
     F = ctx.F
-    dp, df = ctx.body('migration::deplace_column'), ctx.body('column::Column::drop_files')
+    dp, df = ctx.body(shared.column_file_mover(F)), ctx.body('column::Column::drop_files')
     if dp and df:
         def kinds(user):
             ks = set()
@@ -69,7 +70,7 @@ def run(ctx):
         so = mg.call_sites('db::Db::open')
         lm = mg.call_sites('options::Options::load_metadata')
         lib.precedes(ctx, '5c source-opened-normally', mg, lm, so, 'the source is opened with Db::open (lock, replay) using its stored metadata')
-        raw = mg.call_sites('migration::copy_column', 'migration::move_column', 'migration::deplace_column')
+        raw = mg.call_sites('migration::copy_column', 'migration::move_column', shared.column_file_mover(F))
         lib.precedes(ctx, '5e raw-file-copy-after-source-open', mg, so, raw,
                      'column files are copied/moved only after the source was opened (Db::open replays and removes pending write-ahead logs; a raw copy made before would miss them)')
         it = [bi for bi, t in mg.calls() if call_matches(t, ['db::Db::iter_column_index_while'])]
